@@ -18,6 +18,7 @@ long_val = z3.Function("long_val", Obj, INT)                           # mathema
 long_fits = z3.Function("long_fits_in_C_long", Obj, z3.BoolSort())
 tuple_len = z3.Function("tuple_len", Obj, INT)
 tuple_item = z3.Function("tuple_item", Obj, INT, Obj)
+EMPTY_TUPLE = z3.Const("g_empty_tuple", Obj)
 callable_ = z3.Function("is_callable", Obj, z3.BoolSort())
 # results of protocol calls that run Python code are functions of (object, havoc epoch)
 EP = INT
@@ -102,6 +103,8 @@ class Api:
     def own_inc(self, st, o, d=1):
         if st.own is None:
             return st
+        if z3.is_expr(o) and o.eq(EMPTY_TUPLE):
+            return st            # immortal in CPython 3.12: reference counting on it has no effect
         return st.with_own(z3.Store(st.own, o, st.own[o] + d))
 
     def fresh_obj(self, prefix, st):
@@ -161,12 +164,12 @@ class Api:
         return k(None, self.own_inc(st, a[0], -1))
 
     def f_Py_XINCREF(self, a, st, k):
-        if st.own is None:
+        if st.own is None or a[0].eq(EMPTY_TUPLE):
             return k(None, st)
         return k(None, st.with_own(z3.If(a[0] != NULL, z3.Store(st.own, a[0], st.own[a[0]] + 1), st.own)))
 
     def f_Py_XDECREF(self, a, st, k):
-        if st.own is None:
+        if st.own is None or a[0].eq(EMPTY_TUPLE):
             return k(None, st)
         return k(None, st.with_own(z3.If(a[0] != NULL, z3.Store(st.own, a[0], st.own[a[0]] - 1), st.own)))
 
@@ -448,6 +451,11 @@ Api.f_PyArg_ParseTuple = _parse_tuple
 
 
 def _tuple_new(self, a, st, k):
+    n = z3.simplify(as_int(a[0]))
+    if z3.is_int_value(n) and n.as_long() == 0:
+        # PyTuple_New(0) is the empty-tuple singleton, immortal in the pinned CPython (3.12): not an owned reference
+        return k(EMPTY_TUPLE, st.assume(EMPTY_TUPLE != NULL, is_exact(EMPTY_TUPLE, "PyTuple_Type"), is_inst(EMPTY_TUPLE, "PyTuple_Type"),
+                                        tuple_len(EMPTY_TUPLE) == 0))
     r, st2 = self.fresh_obj("newtuple", st)
     return k(r, st2.assume(is_exact(r, "PyTuple_Type"), is_inst(r, "PyTuple_Type"), tuple_len(r) == as_int(a[0])))     # A-ALLOC
 
